@@ -1045,7 +1045,14 @@ static void exec_slot_set(Run &r, int t, int i, const J &op) {
   if (s.data) MemLayer::get().h_free(s.data);
   long blk = (long)op.i("blk", -1);
   if (blk < 0) { s.data = nullptr; s.size = (int)op.i("rec", 0); }
-  else { s.data = MemLayer::get().h_malloc((size_t)blk, t); s.size = (int)op.i("rec", blk); }
+  else {
+    s.data = MemLayer::get().h_malloc((size_t)blk, t); s.size = (int)op.i("rec", blk);
+    std::string fill = op.str("fill", "dirty");   // what the caller's block holds (dirty heap by default)
+    if (fill == "zero") memset(s.data, 0, (size_t)blk);
+    else if (fill == "ones") memset(s.data, 0xff, (size_t)blk);
+    else if (fill == "star" && blk > 0) { memset(s.data, 0, (size_t)blk); memcpy(s.data, "*0", blk >= 3 ? 3 : 1); }
+    else if (fill == "hashlike" && blk > 0) { memset(s.data, 0, (size_t)blk); const char *h = "$1$abcdefgh$0123456789abcdefghijkl"; memcpy(s.data, h, (size_t)blk < strlen(h) ? (size_t)blk : strlen(h)); }
+  }
   s.state = "fresh"; s.returned.clear();
   sig_add(r, vfmt("slot_set:%d:%lld", blk < 0 ? -1 : (blk >= (long)CD ? 2 : 1), (long long)(op.i("rec", blk) < 0 ? -1 : op.i("rec", blk) == 0 ? 0 : 1)));
   ev(vfmt("slot_set t%d op%d slot=%lld blk=%ld rec=%d", t, i, (long long)op.i("slot"), blk, s.size));
